@@ -58,7 +58,10 @@ def states(draw, max_providers=7):
                 draw(st.integers(0, 9)) < 8:
             other = draw(st.sampled_from([q for q in provs if q is not p]))
             other['aggs'] = sorted(set(other['aggs']) | {p['aggs'][0]})
-    # usage
+    return {'providers': provs, 'consumers': _usage(draw, provs)}
+
+
+def _usage(draw, provs):
     ncons = draw(st.sampled_from([1, 2, 0, 3]))
     used = {}
     consumers = []
@@ -85,7 +88,104 @@ def states(draw, max_providers=7):
         if alloc:
             consumers.append({'uuid': gen.CONS[c], 'alloc': [
                 [i, rc, a] for (i, rc), a in sorted(alloc.items())]})
-    return {'providers': provs, 'consumers': consumers}
+    return consumers
+
+
+# ---------------------------------------------------------------- catalogue
+def _inv(total, **kw):
+    inv = {'total': total, 'reserved': 0, 'min_unit': 1, 'max_unit': total,
+           'step_size': 1, 'allocation_ratio': 1.0}
+    inv.update(kw)
+    return inv
+
+
+def _p(i, parent, invs=None, traits=(), aggs=()):
+    return {'uuid': PROV[i], 'parent': parent, 'invs': invs or {},
+            'traits': sorted(traits), 'aggs': sorted(aggs)}
+
+
+A1, A2, A3 = AGGS
+AVX, SSD, CT = 'HW_CPU_X86_AVX2', 'STORAGE_DISK_SSD', 'CUSTOM_PV_T'
+# Hand-written topologies: the examples of doc/source/user/provider-tree.rst
+# and the shapes the version history singles out (sharing at root and nested
+# positions, aggregate on a child only, sharing-only, twins, resource-less
+# roots, both a local and a shared offer of one class ...).
+CATALOGUE = [
+    # 0: two compute nodes sharing one storage pool
+    [_p(0, None, {'VCPU': _inv(8), 'MEMORY_MB': _inv(12)}, aggs=[A1]),
+     _p(1, None, {'VCPU': _inv(4), 'MEMORY_MB': _inv(6)}, [AVX], [A1]),
+     _p(2, None, {'DISK_GB': _inv(12)}, [SHARING, SSD], [A1])],
+    # 1: NUMA-like tree, resource-less root with a trait
+    [_p(0, None, {}, [CT]),
+     _p(1, 0, {'VCPU': _inv(4), 'MEMORY_MB': _inv(8)}, [AVX]),
+     _p(2, 0, {'VCPU': _inv(4), 'MEMORY_MB': _inv(8)}),
+     _p(3, 1, {'CUSTOM_PV_A': _inv(2)}, [SSD]),
+     _p(4, 2, {'CUSTOM_PV_A': _inv(2)})],
+    # 2: nested sharing provider (child of a foreign root) serving another
+    [_p(0, None, {'VCPU': _inv(8)}, aggs=[A1]),
+     _p(1, None, {'MEMORY_MB': _inv(8)}),
+     _p(2, 1, {'DISK_GB': _inv(10)}, [SHARING], [A1])],
+    # 3: sharing providers only
+    [_p(0, None, {'VCPU': _inv(6)}, [SHARING], [A1]),
+     _p(1, None, {'DISK_GB': _inv(6)}, [SHARING], [A1]),
+     _p(2, None, {}, aggs=[A1])],
+    # 4: the aggregate sits on a child only (does not span the tree)
+    [_p(0, None, {'VCPU': _inv(8)}),
+     _p(1, 0, {'MEMORY_MB': _inv(8)}, aggs=[A2]),
+     _p(2, None, {'DISK_GB': _inv(8)}, [SHARING], [A2])],
+    # 5: one class offered locally and by a sharing provider
+    [_p(0, None, {'VCPU': _inv(8), 'DISK_GB': _inv(4)}, aggs=[A1]),
+     _p(1, None, {'DISK_GB': _inv(12)}, [SHARING, SSD], [A1])],
+    # 6: a sharing provider bridging two trees through two aggregates
+    [_p(0, None, {'VCPU': _inv(4)}, aggs=[A1]),
+     _p(1, None, {'VCPU': _inv(4)}, [AVX], [A2]),
+     _p(2, None, {'DISK_GB': _inv(9)}, [SHARING], [A1, A2]),
+     _p(3, 1, {'MEMORY_MB': _inv(6)})],
+    # 7: depth 3 with the same class at every level
+    [_p(0, None, {'VCPU': _inv(2)}),
+     _p(1, 0, {'VCPU': _inv(4)}, [AVX]),
+     _p(2, 1, {'VCPU': _inv(6)}, [AVX, SSD]),
+     _p(3, 2, {'VCPU': _inv(8), 'DISK_GB': _inv(3)})],
+    # 8: identical twins under one root
+    [_p(0, None, {'MEMORY_MB': _inv(8)}),
+     _p(1, 0, {'CUSTOM_PV_A': _inv(4), 'VCPU': _inv(4)}, [CT]),
+     _p(2, 0, {'CUSTOM_PV_A': _inv(4), 'VCPU': _inv(4)}, [CT])],
+    # 9: unit constraints and fractional ratios everywhere
+    [_p(0, None, {'VCPU': _inv(5, reserved=1, step_size=2, min_unit=2,
+                               max_unit=4, allocation_ratio=1.5),
+                  'DISK_GB': _inv(10, reserved=4, allocation_ratio=0.5)},
+        aggs=[A3]),
+     _p(1, 0, {'VCPU': _inv(3, max_unit=2, allocation_ratio=2.0)}),
+     _p(2, None, {'DISK_GB': _inv(7, step_size=3, max_unit=6,
+                                  allocation_ratio=1.1)}, [SHARING], [A3])],
+    # 10: two sharing providers of different classes in one aggregate, two
+    # trees using them
+    [_p(0, None, {'VCPU': _inv(4)}, aggs=[A1]),
+     _p(1, None, {'VCPU': _inv(2)}, aggs=[A1]),
+     _p(2, None, {'DISK_GB': _inv(8)}, [SHARING], [A1]),
+     _p(3, None, {'MEMORY_MB': _inv(8)}, [SHARING, CT], [A1])],
+    # 11: sharing root that also has children with inventory
+    [_p(0, None, {'DISK_GB': _inv(8)}, [SHARING], [A1]),
+     _p(1, 0, {'CUSTOM_PV_A': _inv(3)}),
+     _p(2, None, {'VCPU': _inv(4)}, aggs=[A1]),
+     _p(3, 2, {'MEMORY_MB': _inv(4)}, [AVX])],
+]
+
+
+@st.composite
+def catalogue_states(draw, max_providers=7):
+    import copy
+    provs = copy.deepcopy(draw(st.sampled_from(
+        [c for c in CATALOGUE if len(c) <= max_providers])))
+    return {'providers': provs, 'consumers': _usage(draw, provs),
+            'catalogue': True}
+
+
+def states_mixed(max_providers=7, catalogue_share=3):
+    """Generated states, with catalogue_share in 10 taken from CATALOGUE."""
+    return st.integers(0, 9).flatmap(
+        lambda c: catalogue_states(max_providers) if c < catalogue_share
+        else states(max_providers))
 
 
 def _inventory(draw):
